@@ -91,6 +91,7 @@ def run_case(case):
                                   nontrivial=total >= 2 and ran > 0,
                                   summary={"design": dast.describe(ast), "V_total": total, "strategy": strat, "n": case["nclasses"],
                                            "peer": case["knobs"]["peer"], "faults": case.get("faults")})
+        viols = [(common.with_family(sg, m), dt) for sg, dt in viols]
         viol = common.pick_violation(PROP, viols)
         if viol:
             base.update(outcome="violation", signature=viol[0], detail=viol[1] + " ; design=" + dast.describe(ast))
